@@ -3630,6 +3630,127 @@ Print Assumptions loopir_arma2psd_tie.
 THEOREMS['arma2psd'] = dict(proof=ARMA2PSD_PROOF, theorems=ARMA2PSD_THEOREMS, block=ARMA2PSD_BLOCK)
 
 
+# ---------------------------------------------------------------- minvar, the whole function: translation + theorem by COMPOSITION (T8)
+MINVAR_PROOF = 'Proofs/LoopIRMinvar.v'
+MINVAR_THEOREMS = ['loopir_minvar_model', 'loopir_minvar_default_nfft', 'loopir_minvar_tie']
+MINVAR_BLOCK = """
+(* The program of minvar regenerated on this run - errors.is_positive_integer (twice) and burg.arburg embedded as calls, the psi loop, numpy.fft.fft
+   (the DFT specification of Theory/Dft.v over the hidden twiddle parameter), sampling / numpy.real(psi) - is, term for term, the one
+   Proofs/LoopIRMinvar.v is about: its theorems apply.  (The theorem composes arburg_ir_nocrit through the call semantics.) *)
+Require Import Spectrum.Theory.Ops Spectrum.Theory.Vec Spectrum.Theory.Dft Spectrum.Model.Minvar Spectrum.Model.LoopIRTie Spectrum.Model.LoopIRVec
+               Spectrum.Proofs.LoopIRMinvar.
+Lemma prog_minvar_is_ref : prog_minvar = prog_minvar_ref.
+Proof. reflexivity. Qed.
+(* for EVERY twiddle family, any data (any length, both dtype tags), ANY integer order, sampling given or omitted, every NFFT (a natural number):
+   the run returns / raises exactly what Model.Minvar.minvar and Model.Burg.arburg say (minvar_spec of Model/LoopIRVec.v): SpectrumError for
+   order < 0, ValueError when arburg(X, order-1) raises, IndexError for NFFT < order, else (PSD, A with the leading 1, k).  No side condition. *)
+Theorem loopir_minvar_model :
+  forall (F : Type) (OF : Ops F) (L : Laws OF) (feq : F -> F -> bool) (stop : Z -> F -> F -> bool) (tw : nat -> Z -> F)
+         (isreal : bool) (x : list F) (order : Z) (s : option F) (nfft : nat),
+  run feq stop prog_minvar (minvar_args tw isreal x order s (Some nfft)) = minvar_spec tw x order s nfft.
+Proof. intros. rewrite prog_minvar_is_ref. apply minvar_ir_run. Qed.
+(* NFFT omitted: the Python default default_NFFT = 4096 applies *)
+Theorem loopir_minvar_default_nfft :
+  forall (F : Type) (OF : Ops F) (L : Laws OF) (feq : F -> F -> bool) (stop : Z -> F -> F -> bool) (tw : nat -> Z -> F)
+         (isreal : bool) (x : list F) (order : Z) (s : option F),
+  run feq stop prog_minvar (minvar_args tw isreal x order s None) = minvar_spec tw x order s 4096.
+Proof. intros. rewrite prog_minvar_is_ref. apply minvar_ir_run_default. Qed.
+Theorem loopir_minvar_tie :
+  forall (F : Type) (OF : Ops F) (L : Laws OF) (feq : F -> F -> bool), (forall a, feq a a = true) ->
+  forall (tw : nat -> Z -> F) (isreal : bool) (x : list F) (order : Z) (s : option F) (nfft : nat),
+  tie_minvar feq tw prog_minvar isreal x order s nfft = true.
+Proof. intros. rewrite prog_minvar_is_ref. apply minvar_ir_tie; assumption. Qed.
+Print Assumptions loopir_minvar_model.
+Print Assumptions loopir_minvar_default_nfft.
+Print Assumptions loopir_minvar_tie.
+"""
+THEOREMS['minvar'] = dict(proof=MINVAR_PROOF, theorems=MINVAR_THEOREMS, block=MINVAR_BLOCK)
+
+
+# ---------------------------------------------------------------- speriodogram (1-D path): translation + theorem (T8)
+SPER_PROOF = 'Proofs/LoopIRSperiodogram.v'
+SPER_THEOREMS = ['loopir_speriodogram_model', 'loopir_speriodogram_tie']
+SPER_BLOCK = """
+(* The program of speriodogram regenerated on this run - the 1-D path: NFFT resolution, numpy.mean, x * w - m, numpy.fft.rfft / fft (the DFT specification
+   of Theory/Dft.v over the hidden twiddle parameter), abs()**2 / r, res *= 2*pi/df - is, term for term, the one Proofs/LoopIRSperiodogram.v is about. *)
+Require Import Spectrum.Theory.Ops Spectrum.Theory.Vec Spectrum.Theory.Dft Spectrum.Model.Periodogram Spectrum.Model.LoopIRTie Spectrum.Model.LoopIRVec
+               Spectrum.Proofs.LoopIRSperiodogram.
+Lemma prog_speriodogram_is_ref : prog_speriodogram = prog_speriodogram_ref.
+Proof. reflexivity. Qed.
+(* for EVERY twiddle family, ANY value of the numpy.pi slot, ANY window samples of the length of x, x of any length with either dtype tag (rfft / fft path),
+   NFFT omitted or any natural number (padding, cropping, 0), detrend / scale_by_freq omitted or any non-integer Python value, sampling omitted or given:
+   the run returns / raises exactly what Model.Periodogram.speriodogram says (speriodogram_spec of Model/LoopIRVec.v) *)
+Theorem loopir_speriodogram_model :
+  forall (F : Type) (OF : Ops F) (L : Laws OF) (feq : F -> F -> bool) (stop : Z -> F -> F -> bool) (tw : nat -> Z -> F) (pi : F)
+         (isreal : bool) (x w : list F) (NFFT : option nat) (dt sbf : option pyval) (fs : option F),
+  length w = length x -> oflag_ok dt -> oflag_ok sbf ->
+  run feq stop prog_speriodogram (speriodogram_args tw pi isreal x w NFFT dt sbf fs) = speriodogram_spec tw pi isreal x w NFFT dt sbf fs.
+Proof. intros. rewrite prog_speriodogram_is_ref. apply speriodogram_ir_run; assumption. Qed.
+Theorem loopir_speriodogram_tie :
+  forall (F : Type) (OF : Ops F) (L : Laws OF) (feq : F -> F -> bool), (forall a, feq a a = true) ->
+  forall (tw : nat -> Z -> F) (pi : F) (isreal : bool) (x w : list F) (NFFT : option nat) (dt sbf : option pyval) (fs : option F),
+  length w = length x -> oflag_ok dt -> oflag_ok sbf ->
+  tie_speriodogram feq tw pi prog_speriodogram isreal x w NFFT dt sbf fs = true.
+Proof. intros. rewrite prog_speriodogram_is_ref. apply speriodogram_ir_tie; assumption. Qed.
+Print Assumptions loopir_speriodogram_model.
+Print Assumptions loopir_speriodogram_tie.
+"""
+THEOREMS['speriodogram'] = dict(proof=SPER_PROOF, theorems=SPER_THEOREMS, block=SPER_BLOCK)
+
+
+# ---------------------------------------------------------------- CORRELOGRAMPSD: translation + theorem by COMPOSITION of the CORRELATION theorem (T8)
+CGRAM_PROOF = 'Proofs/LoopIRCorrelogram.v'
+CGRAM_THEOREMS = ['loopir_CORRELOGRAMPSD_model', 'loopir_CORRELOGRAMPSD_correlation', 'loopir_CORRELOGRAMPSD_xcorr', 'loopir_CORRELOGRAMPSD_tie']
+CGRAM_BLOCK = """
+(* The program of CORRELOGRAMPSD regenerated on this run - CORRELATION embedded twice, the xcorr calls as oracle slots, the two slice stores, real(fft(psd))
+   (the DFT specification of Theory/Dft.v over the hidden twiddle parameter) - is, term for term, the one Proofs/LoopIRCorrelogram.v is about. *)
+Require Import Spectrum.Theory.Ops Spectrum.Theory.Vec Spectrum.Theory.Dft Spectrum.Model.Corr Spectrum.Model.Periodogram Spectrum.Model.LoopIRTie
+               Spectrum.Model.LoopIRVec Spectrum.Proofs.LoopIRLevinson Spectrum.Proofs.LoopIRCorrelogram.
+Lemma prog_CORRELOGRAMPSD_is_ref : prog_CORRELOGRAMPSD = prog_CORRELOGRAMPSD_ref.
+Proof. reflexivity. Qed.
+(* for EVERY twiddle family, ANY window samples with 2*lag+1 entries, ANY values of the rms slots, X / Y of any lengths and dtype tags, every lag (a natural
+   number), NFFT omitted / None / any natural number, norm and correlation_method omitted or ANY string - on the domain cg_dom (CORRELATION back end: two
+   float-tagged records are real-valued; xcorr back end: valid norm, equal lengths) - the run returns / raises exactly what Model.Periodogram.correlogram says
+   (correlogram_spec of Model/LoopIRVec.v) *)
+Theorem loopir_CORRELOGRAMPSD_model :
+  forall (F : Type) (OF : Ops F) (L : Laws OF) (feq : F -> F -> bool) (stop : Z -> F -> F -> bool) (tw : nat -> Z -> F)
+         (rx : bool) (x : list F) (y : option (bool * list F)) (lag : nat) (wfull : list F) (NFFT : option (option nat)) (nm : option (option string))
+         (meth : option string) (o1 o2 : F),
+  cg_dom rx x y lag wfull nm meth ->
+  run feq stop prog_CORRELOGRAMPSD (correlogram_args tw rx x y lag wfull NFFT nm meth o1 o2) = correlogram_spec tw x y lag wfull NFFT nm meth o1 o2.
+Proof. intros. rewrite prog_CORRELOGRAMPSD_is_ref. apply correlogram_ir_run; assumption. Qed.
+(* correlation_method='CORRELATION': the composition with the theorem of CORRELATION; unequal lengths included *)
+Theorem loopir_CORRELOGRAMPSD_correlation :
+  forall (F : Type) (OF : Ops F) (L : Laws OF) (feq : F -> F -> bool) (stop : Z -> F -> F -> bool) (tw : nat -> Z -> F)
+         (rx : bool) (x : list F) (y : option (bool * list F)) (lag : nat) (wfull : list F) (NFFT : option (option nat)) (nm : option (option string)) (o1 o2 : F),
+  length wfull = (2 * lag + 1)%nat -> (rx && ty_of rx y = true -> isrealL (yl_of x y) /\\ isrealL x) ->
+  run feq stop prog_CORRELOGRAMPSD (correlogram_args tw rx x y lag wfull NFFT nm (Some "CORRELATION"%string) o1 o2)
+  = correlogram_spec tw x y lag wfull NFFT nm (Some "CORRELATION"%string) o1 o2.
+Proof. intros. rewrite prog_CORRELOGRAMPSD_is_ref. apply correlogram_ir_run_correlation; assumption. Qed.
+(* correlation_method='xcorr' or omitted: the oracle slots hold the model's xcorr *)
+Theorem loopir_CORRELOGRAMPSD_xcorr :
+  forall (F : Type) (OF : Ops F) (L : Laws OF) (feq : F -> F -> bool) (stop : Z -> F -> F -> bool) (tw : nat -> Z -> F)
+         (rx : bool) (x : list F) (y : option (bool * list F)) (lag : nat) (wfull : list F) (NFFT : option (option nat)) (nm : option (option string))
+         (meth : option string) (o1 o2 : F),
+  meth = None \\/ meth = Some "xcorr"%string ->
+  length wfull = (2 * lag + 1)%nat -> norm_of nm <> None -> length (yl_of x y) = length x ->
+  run feq stop prog_CORRELOGRAMPSD (correlogram_args tw rx x y lag wfull NFFT nm meth o1 o2) = correlogram_spec tw x y lag wfull NFFT nm meth o1 o2.
+Proof. intros. rewrite prog_CORRELOGRAMPSD_is_ref. apply correlogram_ir_run_xcorr; assumption. Qed.
+Theorem loopir_CORRELOGRAMPSD_tie :
+  forall (F : Type) (OF : Ops F) (L : Laws OF) (feq : F -> F -> bool), (forall a, feq a a = true) ->
+  forall (tw : nat -> Z -> F) (rx : bool) (x : list F) (y : option (bool * list F)) (lag : nat) (wfull : list F) (NFFT : option (option nat))
+         (nm : option (option string)) (meth : option string) (o1 o2 : F),
+  cg_dom rx x y lag wfull nm meth ->
+  tie_correlogram feq tw prog_CORRELOGRAMPSD rx x y lag wfull NFFT nm meth o1 o2 = true.
+Proof. intros. rewrite prog_CORRELOGRAMPSD_is_ref. apply correlogram_ir_tie; assumption. Qed.
+Print Assumptions loopir_CORRELOGRAMPSD_model.
+Print Assumptions loopir_CORRELOGRAMPSD_correlation.
+Print Assumptions loopir_CORRELOGRAMPSD_xcorr.
+Print Assumptions loopir_CORRELOGRAMPSD_tie.
+"""
+THEOREMS['CORRELOGRAMPSD'] = dict(proof=CGRAM_PROOF, theorems=CGRAM_THEOREMS, block=CGRAM_BLOCK)
+
+
 def reference_text_in(proof, name):
     """the program text of <name> that <proof> was proved about (between its BEGIN/END GENERATED <name> markers)"""
     t = open(os.path.join(vlib.COQ, proof)).read()
